@@ -43,57 +43,67 @@ func intOf(n *refber.Node) (*big.Int, bool) {
 // documented policy: only well-known curves are supported and they are recognised by
 // their prime); when the point does not lie on the declared curve, any other supported
 // curve of the same field size on which it lies is used (the library's documented
-// alternative-curve fallback).
+// alternative-curve fallback). Only the elements that matter are read (lazy reader).
 func ParseSPKI(b []byte) (*PubKey, error) {
-	root, err := refber.ParseOne(b)
-	if err != nil {
-		return nil, err
+	root, _, err := next(b)
+	if err != nil || root.tag != 0x30 {
+		return nil, errors.New("spki: not a SEQUENCE")
 	}
-	if root.Tag != 0x30 || len(root.Children) != 2 {
+	top := kids(root.val)
+	if len(top) < 2 {
 		return nil, errors.New("spki: not SEQUENCE of 2")
 	}
-	alg, bits := root.Children[0], root.Children[1]
-	if alg.Tag != 0x30 || len(alg.Children) < 1 || alg.Children[0].Tag != 0x06 {
+	alg, bits := top[0], top[1]
+	af := kids(alg.val)
+	if alg.tag != 0x30 || len(af) < 1 || af[0].tag != 0x06 {
 		return nil, errors.New("spki: algorithm identifier")
 	}
-	if bits.Tag != 0x03 || bits.Constructed || len(bits.Value) < 1 {
+	if bits.tag != 0x03 || bits.cons || len(bits.val) < 1 {
 		return nil, errors.New("spki: bit string")
 	}
-	keyBytes := bits.Value[1:]
-	oid := alg.Children[0].Value
+	keyBytes := bits.val[1:]
+	oid := af[0].val
 	switch {
 	case bytes.Equal(oid, oidRSA):
-		k, err := refber.ParseOne(keyBytes)
-		if err != nil || k.Tag != 0x30 || len(k.Children) != 2 {
+		k, _, err := next(keyBytes)
+		if err != nil || k.tag != 0x30 {
 			return nil, errors.New("spki: RSAPublicKey")
 		}
-		n, ok1 := intOf(k.Children[0])
-		e, ok2 := intOf(k.Children[1])
+		kf := kids(k.val)
+		if len(kf) < 2 {
+			return nil, errors.New("spki: RSAPublicKey")
+		}
+		n, ok1 := elInt(kf[0])
+		e, ok2 := elInt(kf[1])
 		if !ok1 || !ok2 || n.Sign() <= 0 || e.Sign() <= 0 {
 			return nil, errors.New("spki: RSA integers")
 		}
 		return &PubKey{RSA: &issuer.RSAKey{N: n, E: e, Bits: n.BitLen()}}, nil
 	case bytes.Equal(oid, oidEC):
-		if len(alg.Children) < 2 {
+		if len(af) < 2 {
 			return nil, errors.New("spki: EC parameters missing")
 		}
-		p := alg.Children[1]
+		p := af[1]
 		var declared *ecref.Curve
 		via := ""
 		switch {
-		case p.Tag == 0x06:
+		case p.tag == 0x06:
 			for _, c := range ecref.All() {
-				if bytes.Equal(der.OIDBytes(issuer.CurveOID(c)...), p.Value) {
+				if bytes.Equal(der.OIDBytes(issuer.CurveOID(c)...), p.val) {
 					declared, via = c, "named"
 				}
 			}
-		case p.Tag == 0x30 && len(p.Children) >= 5:
-			f := p.Children[1]
-			if f.Tag == 0x30 && len(f.Children) == 2 {
-				if prime, ok := intOf(f.Children[1]); ok {
-					for _, c := range ecref.All() {
-						if c.P.Cmp(prime) == 0 {
-							declared, via = c, "explicit-by-prime"
+		case p.tag == 0x30:
+			pf := kids(p.val)
+			if len(pf) >= 2 && pf[1].tag == 0x30 {
+				if ff := kids(pf[1].val); len(ff) >= 2 {
+					// the library takes the field parameter as a raw value (any tag)
+					if len(ff[1].val) > 0 {
+						prime := new(big.Int).SetBytes(ff[1].val)
+						for _, c := range ecref.All() {
+							if c.P.Cmp(prime) == 0 {
+								declared, via = c, "explicit-by-prime"
+							}
 						}
 					}
 				}
